@@ -93,12 +93,32 @@ struct Fin {
 			case F_ASSIGN_VIEW: case F_ASSIGN_VIEW_RVALUE: case F_ELEMENTS: case F_ASSIGN_RANGE: {
 				ctx.desc << " from " << vp::ops::kind_name[kind];
 				src_noncontig = kind != vp::ops::K_VIEW;
+				bool elements_moved = false;
 				with_src(tag_T{}, std::true_type{}, kind, [&](auto& w) {
 					if(form == F_ASSIGN_VIEW) { if((skind & 64U) != 0) { v = w; } else { v = std::as_const(w); } }
 					else if(form == F_ASSIGN_VIEW_RVALUE) { std::move(v) = w; }
-					else if(form == F_ELEMENTS) { v.elements() = w.elements(); }
+					else if(form == F_ELEMENTS) {
+						// the element ranges themselves: temporary and *named* destination range, plain and element-moving source range
+						unsigned ev = (in.head(9) / 7U) % 4U;
+						// (array_ref::elements() is a flat 1-D array_ref, not an element range: a range assigned to it goes through the generic range assignment, which reads
+						//  through const iterators and therefore copies from an element-moving range -- observation in DESIGN 11.7, not claimed by the property; plain sources there)
+						if constexpr(is_exact_ref<V>::value) { if(ev >= 2) { ev -= 2; ctx.count("element_moving_range_into_flat_array_ref_not_generated"); } }
+						// (over fancy pointers element-moving *ranges* do not instantiate: same move_ptr<T, P> conversion as the recorded compile-level finding of C11)
+						if constexpr(Fancy) { if(ev >= 2) { ev -= 2; ctx.count("excluded_fancy_element_moving_range"); } }
+						static char const* const en[] = {"", " (named destination range)", " (element-moving source range)", " (named destination range, element-moving source range)"};
+						ctx.desc << en[ev];
+						long const copies0 = vp::obs().assign_copy + vp::obs().ctor_copy;
+						if(ev == 0) { v.elements() = w.elements(); }
+						else if(ev == 1) { auto&& d = v.elements(); d = w.elements(); }
+						else if constexpr(!Fancy) { if(ev == 2) { v.elements() = w.element_moved().elements(); } else { auto&& d = v.elements(); d = w.element_moved().elements(); } }
+						if constexpr(std::is_same_v<T, vp::Tracked>) { if(ev >= 2) {
+							for(auto const& e : w.elements()) { VP_CHECK(e.v == -1, "assign/not_moved_from", "an element of the element-moving source range was copied, not moved (value " << e.v << ")"); }
+							VP_CHECK(vp::obs().assign_copy + vp::obs().ctor_copy == copies0, "assign/moved_copies", "assignment from an element-moving range performed element copies");
+							elements_moved = true;
+						} }
+					}
 					else { if(n > 0) { std::move(v).assign(w.begin()); } }
-					check_src_unchanged(w);
+					if(!elements_moved) { check_src_unchanged(w); }
 				});
 				expect_src();
 				break;
